@@ -152,4 +152,30 @@ theorem envRadix_decimal (feats : Features) : EnvRadix (envOf feats) 10 := by
   · exact Or.inl ⟨Or.inr (Or.inl rfl), rfl⟩
   · exact Or.inr ⟨Or.inr rfl, h10⟩
 
+/-! ## what defines `max_digits` -/
+
+/-- the two facts that make `d = max_digits` a digit limit (`Proof.SlowTruncation`): the largest half-way point between
+two floats is below `radix^d`, and so is the numerator `(2q+1)·(radix/2)^(L+1)` of the finest one; for both float types -/
+def halfwayB (E : Env) (radix : Nat) : Bool :=
+  [f32, f64].all fun f => match E.S.maxDigits f radix with
+    | some d => decide (1 ≤ d) &&
+        decide (2 ^ (f.p + 1) * 2 ^ (f.maxExpField - 2 - (LexVerif.Proof.RoundNE.L f + 1)) ≤ radix ^ d) &&
+        decide (2 ^ (f.p + 1) * (radix / 2) ^ (LexVerif.Proof.RoundNE.L f + 1) ≤ radix ^ d)
+    | none => false
+
+theorem halfway_tables_default : halfwayB envDefault 10 = true := by decide +kernel
+theorem halfway_tables_compact : halfwayB envCompact 10 = true := by decide +kernel
+theorem halfway_tables_pow2 : halfwayB envPow2 10 = true := by decide +kernel
+theorem halfway_tables_radix : digitRadices.all (fun r => halfwayB envRadix r) = true := by decide +kernel
+theorem halfway_tables_compact_radix : digitRadices.all (fun r => halfwayB envCompactRadix r) = true := by
+  decide +kernel
+
+theorem halfway_of_envRadix {E : Env} {r : Nat} (h : EnvRadix E r) : halfwayB E r = true := by
+  rcases h with ⟨hE | hE | hE, hr⟩ | ⟨hE | hE, hr⟩
+  · subst hE; subst hr; exact halfway_tables_default
+  · subst hE; subst hr; exact halfway_tables_compact
+  · subst hE; subst hr; exact halfway_tables_pow2
+  · subst hE; exact (List.all_eq_true.mp halfway_tables_radix) r hr
+  · subst hE; exact (List.all_eq_true.mp halfway_tables_compact_radix) r hr
+
 end LexVerif.Proof.Slow
